@@ -117,9 +117,17 @@ let parse_response_case (toks : string list) : response * string list =
            | "filedir" -> BKnown (n_of_decimal arg, true, { r_data = []; r_sched = [RFail] })
            | "es" ->
              let items = split_on ',' arg in
-             let pieces = List.map (fun it -> event_message_bytes (if it = "e" then [] else hexbytes it)) items in
-             BStream { r_data = List.concat pieces;
-                       r_sched = List.map (fun p -> RGive (nat_of_int (List.length p))) pieces }
+             (* item B<n> = a message of n bytes 'a'; an event whose encoding does not fit the read buffer of
+                copy_chunked_async (piece_max) makes the event reader fail there: the source errors in mid-stream *)
+             let piece_of it = event_message_bytes (if it = "e" then [] else if it.[0] = 'B'
+                 then List.init (int_of_string (String.sub it 1 (String.length it - 1))) (fun _ -> n_of_int 97) else hexbytes it) in
+             let rec build = function
+               | [] -> ([], [])
+               | it :: tl -> let p = piece_of it in
+                 if List.length p > int_of_n piece_max_N then ([], [RFail])
+                 else let (d, s) = build tl in (p @ d, RGive (nat_of_int (List.length p)) :: s) in
+             let (d, s) = build items in
+             BStream { r_data = d; r_sched = s }
            | "drop" | "getbody" -> normal := false; BKnown (N0, true, plain_reader [])
            | _ -> failwith "bad body kind") in
        ({ r_normal = !normal; r_code = n_of_decimal code; r_ctype = ctype; r_headers = headers; r_body = b }, rest)
